@@ -702,7 +702,7 @@ def dict_method(E, st, dv, meth, args, kwargs):
         s2, d2 = E.new_dict(st, dv.kind)
         s2 = s2.copy()
         K = sort_of(dv.kind[1])
-        for prefix, rng in (("DK|%s" % (dv.kind[1],), z3.ArraySort(K, z3.BoolSort())),):
+        for prefix, rng in (("DK|%s|%s" % (dv.kind[1], dv.kind[2]), z3.ArraySort(K, z3.BoolSort())),):
             s2.heap[prefix] = z3.Store(E.arr(s2, prefix, z3.IntSort(), rng), d2.t, z3.Select(E.arr(s2, prefix, z3.IntSort(), rng), dv.t))
         ks = alts(dv.kind[2])
         if len(ks) > 1:
@@ -716,7 +716,7 @@ def dict_method(E, st, dv, meth, args, kwargs):
             rng = z3.ArraySort(K, sort_of(k))
             s2.heap[vk] = z3.Store(E.arr(s2, vk, z3.IntSort(), rng), d2.t, z3.Select(E.arr(s2, vk, z3.IntSort(), rng), dv.t))
         if dv.kind.tag == "odict":
-            ok_ = "DO|%s" % (dv.kind[1],)
+            ok_ = "DO|%s|%s" % (dv.kind[1], dv.kind[2])
             rng = z3.SeqSort(K)
             s2.heap[ok_] = z3.Store(E.arr(s2, ok_, z3.IntSort(), rng), d2.t, z3.Select(E.arr(s2, ok_, z3.IntSort(), rng), dv.t))
         return ok(s2, d2)
